@@ -34,10 +34,10 @@ func (s *stubBlockStore) LoadBlock(h int64) *tmtypes.Block {
 }
 func (s *stubBlockStore) SaveBlock(*tmtypes.Block, *tmtypes.PartSet, *tmtypes.Commit) {}
 func (s *stubBlockStore) PruneBlocks(int64) (uint64, error)                           { return 0, nil }
-func (s *stubBlockStore) LoadBlockByHash([]byte) *tmtypes.Block                        { return nil }
-func (s *stubBlockStore) LoadBlockPart(int64, int) *tmtypes.Part                       { return nil }
-func (s *stubBlockStore) LoadBlockCommit(int64) *tmtypes.Commit                        { return nil }
-func (s *stubBlockStore) LoadSeenCommit(int64) *tmtypes.Commit                         { return nil }
+func (s *stubBlockStore) LoadBlockByHash([]byte) *tmtypes.Block                       { return nil }
+func (s *stubBlockStore) LoadBlockPart(int64, int) *tmtypes.Part                      { return nil }
+func (s *stubBlockStore) LoadBlockCommit(int64) *tmtypes.Commit                       { return nil }
+func (s *stubBlockStore) LoadSeenCommit(int64) *tmtypes.Commit                        { return nil }
 
 // InstallRPCEnv points tendermint's rpc/core environment at this chain (process-global).
 func (c *Chain) InstallRPCEnv() {
